@@ -25,6 +25,12 @@ class OsProxy:
     def getpid(self):
         return 1
 
+    def _exit(self, code=0):
+        """a simulated process that calls os._exit dies on the spot: no feeder flush, nothing else runs"""
+        from .fakemp import HardExit
+        self._sim.log("os._exit", code)
+        raise HardExit(code)
+
     def __getattr__(self, item):
         return getattr(self._real, item)
 
